@@ -104,6 +104,10 @@ class CallMixin:
             if h: return h(self, v, st, n)
             raise Unsupported("int(symbolic float)")
         if name == "bool": return VBool(self.truth(args[0], st))
+        if name in ("any", "all"):
+            els = self.iter_items(args[0], st, n)
+            if name == "any": return VBool(OR(*[AND(g, self.truth(v, st)) for g, v in els]))
+            return VBool(AND(*[IMP(g, self.truth(v, st)) for g, v in els]))
         if name == "str": return self.to_str(args[0], st, n)
         if name == "bytes":
             h = self.ext.get("bytes")
@@ -200,7 +204,9 @@ class CallMixin:
         if isinstance(v, VRef):
             obj = st.heap.get(v.oid, {})
             if "$d" in obj: return self.len_(obj["$d"], st, n)
-            if "$l" in obj: return self.len_(obj["$l"], st, n)
+            if "$l" in obj:
+                r = self.len_(obj["$l"], st, n)
+                return n_add(r, obj["$plen"]) if "$plen" in obj else r
             if "$len" in obj: return obj["$len"]
             h = self.contracts.get((v.cls, "__len__"))
             if h: return h(self, v, [], {}, st)
